@@ -348,6 +348,16 @@ Definition add_derived (c : cid) (h : how) (e : dexpr) (d : ds) : option ds :=
   else if negb (subsetz (leaves e) (keys (dcomps d))) then None
   else Some (mkds (dshape d) (dcomps d ++ [(c, Derived h e)])).
 
+(* add_component_link(link, label = existing id): the derived attribute is re-defined in place (keeps its slot) *)
+Definition redefine (c : cid) (h : how) (e : dexpr) (d : ds) : option ds :=
+  if negb (memz c (keys (dcomps d))) then None
+  else if negb (subsetz (leaves e) (keys (dcomps d))) then None
+  else Some (mkds (dshape d) (map (fun ck => if fst ck =? c then (c, Derived h e) else ck) (dcomps d))).
+(* Data.reorder_components(l): l must be a permutation of the ids *)
+Definition reorder (l : list cid) (d : ds) : option ds :=
+  if negb (Nat.eqb (length l) (length (dcomps d))) || negb (subsetz l (keys (dcomps d))) || negb (subsetz (keys (dcomps d)) l) then None
+  else Some (mkds (dshape d) (map (fun c => (c, match assoc c (dcomps d) with Some k => k | None => Pixel (-1) end)) l)).
+
 (* ---------- wire ---------- *)
 Definition dec_q (t : tree) : Q :=
   match t with T _ [T n _; T d _] => Qmake n (Z.to_pos d) | _ => 0%Q end.
@@ -387,13 +397,17 @@ Inductive op :=
 | OAdd (c : cid) (h : how) (e : dexpr)
 | ORemove (c : cid)
 | OUpdateId (o n : cid)
-| OQuery (c : cid) (v : view).
+| OQuery (c : cid) (v : view)
+| ORedefine (c : cid) (h : how) (e : dexpr)
+| OReorder (l : list cid).
 Definition dec_op (t : tree) : option op :=
   match t with
   | T 1 [T c _; T h _; e] => Some (OAdd c (dec_how h) (dec_expr e))
   | T 2 [T c _] => Some (ORemove c)
   | T 3 [T o _; T n _] => Some (OUpdateId o n)
   | T 4 [T c _; T _ v] => Some (OQuery c (map dec_ventry v))
+  | T 5 [T c _; T h _; e] => Some (ORedefine c (dec_how h) (dec_expr e))
+  | T 6 [l] => Some (OReorder (to_zs l))
   | _ => None
   end.
 
@@ -414,6 +428,16 @@ Fixpoint run_ops (ops : list tree) (d : ds) : list tree :=
     | Some (ORemove c) => let d' := remove_component c d in T 1 [enc_struct d'] :: run_ops r d'
     | Some (OUpdateId o n) => let d' := update_id o n d in T 1 [enc_struct d'] :: run_ops r d'
     | Some (OQuery c v) => T 2 [enc_value (get_data (S (length (dcomps d))) d v c)] :: run_ops r d
+    | Some (ORedefine c h e) =>
+      match redefine c h e d with
+      | Some d' => T 1 [enc_struct d'] :: run_ops r d'
+      | None => err 1 :: run_ops r d
+      end
+    | Some (OReorder l) =>
+      match reorder l d with
+      | Some d' => T 1 [enc_struct d'] :: run_ops r d'
+      | None => err 1 :: run_ops r d
+      end
     end
   end.
 
